@@ -17,7 +17,10 @@ position after a *failure* left wherever the code leaves it.
 | `.alt` | alternative_impl.hpp (save, left, restore, `is_fatal`, right; error_add.hpp: fatal-or) |
 | `.rep` | repetition_impl.hpp + either/loop.hpp (element, skipper, `pos` updated only after both; restore; `is_fatal`) |
 | `.opt` `.not` `.fatal` `.lexeme` | optional_impl.hpp, not_impl.hpp, fatal_impl.hpp, lexeme_impl.hpp |
-| `.conv` `.convIf` `.ignore` `.named` | convert_impl.hpp / construct.hpp, convert_if_impl.hpp, ignore_impl.hpp, named_impl.hpp (a new error that keeps the fatal flag, af6c285) |
+| `.conv` `.convIf` `.ignore` `.named` | convert_impl.hpp, convert_if_impl.hpp, ignore_impl.hpp, named_impl.hpp (a new error that keeps the fatal flag, af6c285) |
+| `.map` + `Mapper.apply` | construct.hpp (`Result{v}`), as_struct.hpp (`Result{t_1,…,t_n}`), convert_const_impl.hpp (`this->result_`) |
+| `.float`, `decToDouble` | float_impl.hpp (`lexeme(-lit('-') >> +digits >> lit('.') >> +digits)`, `extract_from_string`, negation) |
+| `M.parseStream` | phrase_parse_stream.hpp, parse_stream.hpp, grammar_parse_stream.hpp (no `consume_remaining`) |
 | `.ref` | base_decl.hpp / detail/concrete_impl.hpp / grammar_impl.hpp / recursive_impl.hpp (indirection through a rule) |
 | `desugar`/`post` for `.plus .sep .list .uint .int` | repetition_plus_impl.hpp (`p >> *p`), separator_impl.hpp (`-(p >> *(sep >> p))`), list_impl.hpp (`start >> (end | (separator >> end))`), uint_impl.hpp (`lexeme(+digits)`), int_impl.hpp (`lexeme(-lit('-') >> +digits)`) — the code builds exactly these composite parsers and post-processes their value |
 | `M.parseString` | phrase_parse.hpp (skipper first), phrase_parse_string.hpp, parse_string.hpp, grammar_parse_string.hpp, detail/consume_remaining.hpp |
@@ -35,14 +38,29 @@ namespace Fcppt.C02
 inductive Val where
   | unit | ch (c : Nat) | int (i : Int) | nil | cons (h t : Val) | pair (a b : Val)
   | none | some (v : Val) | inl (v : Val) | inr (v : Val) | tag (k : Nat) (v : Val)
+  | flt (bits : Nat)
   deriving Repr, DecidableEq, Inhabited
+
+/-- the three "replace the success value" combinators that need no user function:
+`construct<Result>(p)` (`Result{v}`), `as_struct<Result>(p)` (`Result{t_1,…,t_n}` from a tuple) and
+`convert_const{p, c}` (the stored constant, whatever `p` produced) -/
+inductive Mapper where
+  | construct (k : Nat) | asStruct (k : Nat) | const (c : Val)
+  deriving Repr, DecidableEq, Inhabited
+
+/-- construct.hpp / as_struct.hpp: the value wrapped into the struct `k`; convert_const_impl.hpp: `this->result_` -/
+def Mapper.apply : Mapper → Val → Val
+  | .construct k, v => .tag k v
+  | .asStruct k, v => .tag k v
+  | .const c, _ => c
 
 inductive P where
   | eps | fail | any | lit (c : Nat) | cset (cs : List Nat) | compl (cs : List Nat) | str (s : List Nat)
   | seq (a b : P) | alt (a b : P) | rep (a : P) | opt (a : P) | not (a : P)
   | fatal (a : P) | lexeme (a : P)
   | conv (k : Nat) (a : P) | convIf (k : Nat) (a : P) | ignore (a : P) | named (a : P) | ref (i : Nat)
-  | plus (a : P) | sep (a s : P) | list (o a s c : P) | uint (max : Nat) | int (max : Nat)
+  | map (m : Mapper) (a : P)
+  | plus (a : P) | sep (a s : P) | list (o a s c : P) | uint (max : Nat) | int (max : Nat) | float
   deriving Repr, DecidableEq, Inhabited
 
 inductive Sk where
@@ -65,6 +83,7 @@ def desugar : P → P
   | .list o a s c => .seq o (.alt c (.seq (.sep a s) c))
   | .uint _ => .lexeme (.plus (.cset digits))
   | .int _ => .lexeme (.seq (.opt (.lit 45)) (.plus (.cset digits)))
+  | .float => .lexeme (.seq (.seq (.seq (.opt (.lit 45)) (.plus (.cset digits))) (.lit 46)) (.plus (.cset digits)))
   | p => p
 
 def mapSnd : Val → Val
@@ -74,6 +93,28 @@ def mapSnd : Val → Val
 def digitsVal : Nat → Val → Nat
   | acc, .cons (.ch c) t => digitsVal (acc * 10 + (c - 48)) t
   | acc, _ => acc
+
+def listLenV : Val → Nat
+  | .cons _ t => listLenV t + 1
+  | _ => 0
+
+/-- `extract_from_string<double>` on a string `digits '.' digits` (`istream >> double`, i.e. glibc `strtod` in
+round-to-nearest): the binary64 bit pattern of `n / 10^k` rounded to nearest, ties to even, subnormals included;
+`none` = the result overflows (`HUGE_VAL`, the stream sets `failbit`).  Assumption validated by the correspondence. -/
+def decToDouble (n k : Nat) : Option Nat :=
+  if n = 0 then some 0 else
+  let b := 10 ^ k
+  let e0 : Int := (Nat.log2 n : Int) - (Nat.log2 b : Int) - 52
+  let qAt (e : Int) : Nat := if e ≥ 0 then n / (b * 2 ^ e.toNat) else (n * 2 ^ (-e).toNat) / b
+  let e1 : Int := if qAt e0 < 2 ^ 52 then e0 - 1 else e0
+  let e : Int := if e1 < -1074 then -1074 else e1
+  let num := if e ≥ 0 then n else n * 2 ^ (-e).toNat
+  let den := if e ≥ 0 then b * 2 ^ e.toNat else b
+  let q0 := num / den
+  let r := num % den
+  let q := if 2 * r > den ∨ (2 * r = den ∧ q0 % 2 = 1) then q0 + 1 else q0
+  let bits := if q ≥ 2 ^ 52 then (e + 1075).toNat * 2 ^ 52 + (q - 2 ^ 52) else q
+  if bits ≥ 2047 * 2 ^ 52 then none else some bits
 
 /-- value post-processing of the derived combinators (`container::join`, `optional::maybe`,
 `extract_from_string` + range check); `none` = conversion failed (non-fatal error) -/
@@ -86,6 +127,11 @@ def post : P → Val → Option Val
   | .uint m, l => if digitsVal 0 l ≤ m then some (.int (digitsVal 0 l)) else none
   | .int m, .pair sg l =>
       if digitsVal 0 l ≤ m then some (.int (if sg = .none then (digitsVal 0 l : Int) else - (digitsVal 0 l : Int))) else none
+  | .float, .pair (.pair (.pair sg l1) _) l2 =>
+      -- float_impl.hpp: get<1> + "." + get<2> through extract_from_string, negated (sign bit) if the '-' was there
+      match decToDouble (digitsVal (digitsVal 0 l1) l2) (listLenV l2) with
+      | some bits => some (.flt (if sg = .none then bits else bits + 2 ^ 63))
+      | none => none
   | _, v => some v
 
 /-! ## implementation level: positions -/
@@ -231,11 +277,17 @@ def run (g : G) (s : List Nat) : Nat → P → Sk → Nat → Option MRes
     | some (.ok v p) => some (.ok v p)
     | some (.err ft p) => some (.err ft p)  -- error{"Expected " + name}, the fatal flag is kept (repaired in af6c285)
   | f+1, .ref i, sk, pos => run g s f (g.rules i) sk pos
+  | f+1, .map m a, sk, pos =>
+    match run g s f a sk pos with
+    | none => none
+    | some (.ok v p) => some (.ok (m.apply v) p)
+    | some (.err ft p) => some (.err ft p)
   | f+1, .plus a, sk, pos => sugar (.plus a) (run g s f (desugar (.plus a)) sk pos)
   | f+1, .sep a b, sk, pos => sugar (.sep a b) (run g s f (desugar (.sep a b)) sk pos)
   | f+1, .list o a b c, sk, pos => sugar (.list o a b c) (run g s f (desugar (.list o a b c)) sk pos)
   | f+1, .uint m, sk, pos => sugar (.uint m) (run g s f (desugar (.uint m)) sk pos)
   | f+1, .int m, sk, pos => sugar (.int m) (run g s f (desugar (.int m)) sk pos)
+  | f+1, .float, sk, pos => sugar .float (run g s f (desugar .float) sk pos)
 
 end M
 
@@ -254,5 +306,18 @@ def M.parseString (g : G) (f : Nat) (p : P) (sk : Sk) (s : List Nat) : Option To
     | none => none
     | some (.err ft _) => some (.err ft)
     | some (.ok v p1) => if (s.drop p1).isEmpty then some (.ok v) else some (.err false)
+
+/-- `phrase_parse_stream` / `parse_stream` / `grammar_parse_stream` (phrase_parse.hpp on a `detail::stream`): skipper,
+then the parser, **no** `consume_remaining`; the second component is the offset the `std::istream` is left at — after a
+success (the rest of the input can be read from there) and after a failure (wherever the failing parser left it) -/
+def M.parseStream (g : G) (f : Nat) (p : P) (sk : Sk) (s : List Nat) : Option (Top × Nat) :=
+  match M.skip s f sk 0 with
+  | none => none
+  | some (.err ft q) => some (.err ft, q)
+  | some (.ok p0) =>
+    match M.run g s f p sk p0 with
+    | none => none
+    | some (.err ft q) => some (.err ft, q)
+    | some (.ok v p1) => some (.ok v, p1)
 
 end Fcppt.C02
